@@ -57,6 +57,10 @@ mod connection;
 mod listener;
 mod substream;
 
+/// Verification hooks: the connection event loop over a loopback pair (see the file). Adds code only.
+#[cfg(feature = "verif")]
+pub mod verif_loop;
+
 pub mod config;
 
 /// Verification hooks: the real `QuicTransport` behind a public facade. Adds code only.
